@@ -309,9 +309,9 @@ const (
 	tAny
 	tAnyObj
 	tRange
-	tList
+	mkList
 	tObj
-	tOpt
+	mkOpt
 )
 
 type mtype struct {
@@ -332,8 +332,8 @@ var (
 	mtRange  = &mtype{K: tRange}
 )
 
-func mtList(e *mtype) *mtype { return &mtype{K: tList, Elem: e} }
-func mtOpt(e *mtype) *mtype  { return &mtype{K: tOpt, Elem: e} }
+func mtList(e *mtype) *mtype { return &mtype{K: mkList, Elem: e} }
+func mtOpt(e *mtype) *mtype  { return &mtype{K: mkOpt, Elem: e} }
 func mtObj(kv ...any) *mtype {
 	t := &mtype{K: tObj}
 	for i := 0; i+1 < len(kv); i += 2 {
@@ -362,9 +362,9 @@ func (t *mtype) String() string {
 		return "{ ? }"
 	case tRange:
 		return "range"
-	case tList:
+	case mkList:
 		return "[" + t.Elem.String() + "]"
-	case tOpt:
+	case mkOpt:
 		return "?" + t.Elem.String()
 	case tObj:
 		if len(t.FNames) == 0 {
@@ -381,7 +381,7 @@ func (t *mtype) String() string {
 
 func (t *mtype) depth() int {
 	switch t.K {
-	case tList, tOpt:
+	case mkList, mkOpt:
 		return t.Elem.depth() + 1
 	case tObj:
 		d := 1
@@ -399,7 +399,7 @@ func (t *mtype) containsAny() bool {
 	switch t.K {
 	case tAny:
 		return true
-	case tList, tOpt:
+	case mkList, mkOpt:
 		return t.Elem.containsAny()
 	case tObj:
 		for _, f := range t.FTypes {
@@ -441,9 +441,9 @@ func (t *mtype) astType() ast.Type {
 		return ast.NewAnyObjectType(noSpan)
 	case tRange:
 		return ast.NewRangeType(noSpan)
-	case tList:
+	case mkList:
 		return ast.NewListType(t.Elem.astType(), noSpan)
-	case tOpt:
+	case mkOpt:
 		return ast.NewOptionType(t.Elem.astType(), noSpan)
 	case tObj:
 		var fs []ast.ObjectTypeField
@@ -478,9 +478,9 @@ func conforms(v *mval, t *mtype) bool {
 		return v.K == mRange
 	case tAnyObj:
 		return v.K == mAnyObj
-	case tOpt:
+	case mkOpt:
 		return v.K == mOpt && (v.Inner == nil || conforms(v.Inner, t.Elem))
-	case tList:
+	case mkList:
 		if v.K != mList {
 			return false
 		}
@@ -543,7 +543,7 @@ func refcastAt(v *mval, t *mtype, scalar bool, path string) castRes {
 	switch t.K {
 	case tAny:
 		return castRes{OK: true, Val: v}
-	case tOpt:
+	case mkOpt:
 		if v.K == mOpt {
 			if v.Inner == nil {
 				return castRes{OK: true, Val: vNone()}
@@ -620,7 +620,7 @@ func refcastAt(v *mval, t *mtype, scalar bool, path string) castRes {
 			c.K = mAnyObj
 			return castRes{OK: true, Val: c}
 		}
-	case tList:
+	case mkList:
 		if v.K != mList {
 			return fail()
 		}
@@ -901,7 +901,7 @@ func staticType(v *mval) (*mtype, bool) {
 		return mtAnyObj, true
 	case mOpt:
 		if v.Inner == nil {
-			return &mtype{K: tOpt}, true // wildcard inner
+			return &mtype{K: mkOpt}, true // wildcard inner
 		}
 		t, ok := staticType(v.Inner)
 		return mtOpt(t), ok
@@ -922,7 +922,7 @@ func staticType(v *mval) (*mtype, bool) {
 			}
 			cur = u
 		}
-		return &mtype{K: tList, Elem: cur}, true
+		return &mtype{K: mkList, Elem: cur}, true
 	case mObj:
 		t := &mtype{K: tObj}
 		for i, k := range v.Keys {
@@ -950,7 +950,7 @@ func unify(a, b *mtype) (*mtype, bool) {
 		return nil, false
 	}
 	switch a.K {
-	case tList, tOpt:
+	case mkList, mkOpt:
 		e, ok := unify(a.Elem, b.Elem)
 		if !ok {
 			return nil, false
@@ -983,7 +983,7 @@ func (t *mtype) hasWildcard() bool {
 		return true
 	}
 	switch t.K {
-	case tList, tOpt:
+	case mkList, mkOpt:
 		return t.Elem.hasWildcard()
 	case tObj:
 		for _, f := range t.FTypes {
